@@ -48,15 +48,15 @@ def resnapMargins (g : List Rat) : List BcSnap → List Rat
     (if g.contains r then [] else [rabs (tieMargin g r)]) ++ resnapMargins g (b :: rest)
   | _ => []
 
-/-- re-deriving the tempo positions from their millisecond offsets gives the positions back (what
-`GridCompatible` guarantees; evaluated directly) -/
+/-- re-deriving the tempo positions from their millisecond offsets gives the positions back: exactly the
+hypothesis `hst` of `bms_times_partial` (what `GridCompatible` is meant to guarantee), evaluated directly -/
 def resnapStable (g : Array Rat) (cs : List BcSnap) : Bool :=
   match fromBcSnap 0 cs false with
   | .error _ => false
   | .ok tm =>
     match bcsOfBco g tm with
     | .error _ => false
-    | .ok (_, bcs) => bcs.map (fun b => (b.snap.measure, b.snap.beat)) == cs.map (fun b => (b.snap.measure, b.snap.beat))
+    | .ok (bco, bcs) => decide (bco = tm) && decide (bcs = cs)
 
 /-- every lane's objects appear in the file in non-decreasing position order -/
 def lanesOrdered (lay : Layout) (notes : List (Bytes × Bytes × Bytes)) : Bool :=
